@@ -848,7 +848,12 @@ func (c *compiler) evalCallExpression(node *ast.CallExpression) (interface{}, er
 		}
 
 		if ff, ok := f.(*userFunction); ok {
-			return c.evalUserFunction(ff, node.Arguments)
+			res, err := c.evalUserFunction(ff, node.Arguments)
+			if err != nil || node.ChainCallee == nil {
+				return res, err
+			}
+
+			return c.evalChainCallee(node, res)
 		}
 
 		rv = reflect.ValueOf(f)
@@ -1021,24 +1026,27 @@ func (c *compiler) evalCallExpression(node *ast.CallExpression) (interface{}, er
 			return nil, fmt.Errorf("could not call %s function: %w", node.Function, e)
 		}
 		if node.ChainCallee != nil {
-			defer c.pushScope()()
-			// the rest of the path refers to the call's result by the name the
-			// parser put at the root of its receiver chain
-			key := node.Function.String()
-			if root := calleeRoot(node.ChainCallee); root != nil {
-				key = root.Value
-			}
-			c.ctx.Set(key, res[0].Interface())
-			vvs, err := c.evalExpression(node.ChainCallee)
-			if err != nil {
-				return nil, err
-			}
-			return vvs, err
+			return c.evalChainCallee(node, res[0].Interface())
 		}
 		return res[0].Interface(), nil
 	}
 
 	return nil, nil
+}
+
+// evalChainCallee resolves the path that continues after a call, f(x).a.b or
+// f(x).m(), against the call's value.
+func (c *compiler) evalChainCallee(node *ast.CallExpression, value interface{}) (interface{}, error) {
+	defer c.pushScope()()
+	// the rest of the path refers to the call's result by the name the
+	// parser put at the root of its receiver chain
+	key := node.Function.String()
+	if root := calleeRoot(node.ChainCallee); root != nil {
+		key = root.Value
+	}
+	c.ctx.Set(key, value)
+
+	return c.evalExpression(node.ChainCallee)
 }
 
 // pushScope makes a child of the current context the current one and returns
